@@ -43,23 +43,26 @@ impl BitVec {
     /// (introduced by rewrite rule R7)
     #[verifier::external_body]
     pub fn vx_chunk(&self, skip: usize, take: usize, c: usize, w: usize) -> (r: BitVec)
-        requires w > 0
+        requires w > 0, c < ch_n(self@.len() as int, skip as int, take as int, w as int)
         ensures ({
-            let lo = if skip <= self@.len() { skip as int } else { self@.len() as int };
-            let hi = if lo + take <= self@.len() { lo + take } else { self@.len() as int };
+            let lo = ch_lo(self@.len() as int, skip as int);
+            let hi = ch_hi(self@.len() as int, skip as int, take as int);
             let a = lo + c * w;
             let b = if a + w <= hi { a + w } else { hi };
-            a <= hi ==> r@ == self@.subrange(a, b)
+            a < hi && r@ == self@.subrange(a, b) && 1 <= r@.len() <= w
         })
     { unimplemented!() }
     /// number of chunks of `self.iter().skip(skip).take(take).chunks(w)`
     #[verifier::external_body]
     pub fn vx_nchunks(&self, skip: usize, take: usize, w: usize) -> (r: usize)
         requires w > 0
-        ensures ({
-            let lo = if skip <= self@.len() { skip as int } else { self@.len() as int };
-            let hi = if lo + take <= self@.len() { lo + take } else { self@.len() as int };
-            r as int == (hi - lo + w - 1) / (w as int)
-        })
+        ensures r as int == ch_n(self@.len() as int, skip as int, take as int, w as int)
     { unimplemented!() }
+}
+pub open spec fn ch_lo(len: int, skip: int) -> int { if skip <= len { skip } else { len } }
+pub open spec fn ch_hi(len: int, skip: int, take: int) -> int {
+    if ch_lo(len, skip) + take <= len { ch_lo(len, skip) + take } else { len }
+}
+pub open spec fn ch_n(len: int, skip: int, take: int, w: int) -> int {
+    (ch_hi(len, skip, take) - ch_lo(len, skip) + w - 1) / w
 }
